@@ -234,6 +234,11 @@ func genHistory(t *rapid.T, o jGenOpts) (*History, map[string]int) {
 			d.StartDate = rapid.SampledFrom([]int64{1710046800, 1730606400, 1710133200}).Draw(t, "dstMidnight") // 2024-03-10, 2024-11-03, 2024-03-11 00:00 local
 			d.StartTimeSec = int64(rapid.SampledFrom([]int{3600, 7200, 10800, 14400, 86399}).Draw(t, "dstStartTime"))
 		}
+		if d.Zone == "" && rapid.IntRange(0, 7).Draw(t, "oddEpoch") == 0 {
+			// service days whose Unix time has another number of digits, or is negative: the order of the UIDs (strings) is
+			// then not the order of the start instants (2001-09-09 is where 9 digits become 10)
+			d.StartDate = rapid.SampledFrom([]int64{0, 86400, 8640000, 999_993_600, 1_000_080_000, -86400, -864000, 9_999_936_000, 10_000_022_400}).Draw(t, "oddEpochDay")
+		}
 		suffix := rapid.SampledFrom(suffixes).Draw(t, "suffix")
 		d.ID = fmt.Sprintf("%06d%s", rapid.SampledFrom([]int{0, 6000, 6001, 143950}).Draw(t, "origin"), suffix)
 		if !o.Collisions || huge > 0 {
@@ -353,7 +358,7 @@ func genHistory(t *rapid.T, o jGenOpts) (*History, map[string]int) {
 	}
 	// window
 	if o.InsideWindow {
-		h.WindowStart, h.WindowEnd = 0, 1<<40
+		h.WindowStart, h.WindowEnd = -(1 << 40), 1<<40
 	} else {
 		d := h.Pool[rapid.IntRange(0, nT-1).Draw(t, "windowTrip")]
 		edge := d.startInstant()
@@ -716,8 +721,14 @@ func propC14(t *rapid.T) {
 // TestC14Long: one trip whose stop list has tens of thousands of entries (a trip that is re-published for days, a loop line):
 // whatever the journal does differently for long lists - a bounded search window, chunked storage - must not lose passed stops.
 // Stop ids are distinct, so the alignment of every update is determined.
-func TestC14Long(t *testing.T) {
-	rapid.Check(t, func(t *rapid.T) {
+func TestC14Long(outer *testing.T) {
+	fail := ""
+	defer func() {
+		if fail != "" {
+			outer.Fatalf("%s", fail)
+		}
+	}()
+	rapid.Check(outer, func(t *rapid.T) {
 		n := rapid.SampledFrom([]int{9000, 33000, 40000, 70000}).Draw(t, "stops")
 		h := &History{WindowStart: 0, WindowEnd: 1 << 40}
 		h.Pool = []JTripDesc{{ID: "006000_L..N01R", RouteID: "L", Dir: 1, StartDate: 1_700_006_400, StartTimeSec: 3600}}
@@ -761,6 +772,8 @@ func TestC14Long(t *testing.T) {
 		c14Rec.NontrivialCase(vt.Fingerprint([]any{n, nF, lo, hi}), func() any {
 			return map[string]any{"stops_in_first_feed": n, "feeds": nF, "last_update_covers": []int{lo, hi}}
 		})
-		vt.Run(t, c14Rec, *h, checkC14)
+		if msg := vt.Try(c14Rec, *h, checkC14); msg != "" && fail == "" {
+			fail = msg
+		}
 	})
 }
